@@ -97,11 +97,15 @@ def exact_f32(v):
         return f"not-float32:{type(v).__name__}:{v!r}"
     if math.isnan(float(v)):
         return "nan"
+    if math.isinf(float(v)):
+        return repr(float(v))
     return enc_rat(Fr(float(v)))
 
 
 def exact_f64(v):
     v = float(v)
+    if math.isinf(v):
+        return repr(v)
     return "nan" if math.isnan(v) else enc_rat(Fr(v))
 
 
